@@ -94,7 +94,7 @@ theorem s_Gamma_udd3_bssnok_spec (e : Env K) (k i j : Fin 3) :
     (simp only [core_unfold, gammaBssnok, Fin.sum_univ_three, Fin.isValue, Fin.reduceEq, if_true, if_false,
        ↓reduceIte]; try ring)
 
-/-- **Alcubierre (2.8.10)**: `Γ̃^i = −∂_j γ̃^{ij}`. -/
+/-- **Alcubierre §2.8, conformal connection functions**: `Γ̃^i = −∂_j γ̃^{ij}`. -/
 theorem s_Gamma_bssnok_spec (e : Env K) (i : Fin 3) :
     s_Gamma_bssnok e i = gammaVec e.D e.gammaup3_bssnok i := by
   revert i; cases3 <;> (simp only [core_unfold, gammaVec, Fin.sum_univ_three])
